@@ -115,11 +115,11 @@ unsafe impl<A: BumpAllocatorCore> Allocator for WithoutShrink<A> {
         unsafe fn shrink_unfit<A: BumpAllocatorCore>(
             this: &WithoutShrink<A>,
             ptr: NonNull<u8>,
-            old_layout: Layout,
+            _old_layout: Layout,
             new_layout: Layout,
         ) -> Result<NonNull<[u8]>, AllocError> {
             let new_ptr = this.0.allocate(new_layout)?.cast::<u8>();
-            unsafe { ptr.copy_to_nonoverlapping(new_ptr, old_layout.size()) };
+            unsafe { ptr.copy_to_nonoverlapping(new_ptr, new_layout.size()) };
             Ok(NonNull::slice_from_raw_parts(new_ptr, new_layout.size()))
         }
 
